@@ -30,7 +30,9 @@ RULE = ('worlds of 2-3 tables over one content from tables.rand_spec (dims 1..4,
         'access, iter, t[i,j], plain reads, the writers as read-only accessors (to_tsv with / without header_key, header_value, '
         'metadata_formatter; to_json; to_hdf5; to_dataframe; metadata_to_dataframe) also on tables with metadata on SOME ids only, ==, !=, descriptive_equality in both directions and on one object, copy}; '
         'compared with the model: a deep content snapshot after every accessor, every verdict, every returned nnz, and format/indptr/indices/data of every touched table '
-        'after every step; every ordered pair is compared at the end and symmetry is checked on unequal pairs too; for equal-content pairs to_tsv text, json.loads(to_json) and the raw h5py dump of to_hdf5; '
+        'after every step; every ordered pair is compared at the end and symmetry is checked on unequal pairs too; equal-content tables must answer min / nonzero / stored count alike before and after the program '
+        '(asked of deep copies; not in worlds with injected zeros); in 40% a sort_order/inverse twin is changed in place afterwards (must turn unequal, '
+        'original untouched); for equal-content pairs to_tsv text, json.loads(to_json) and the raw h5py dump of to_hdf5; '
         'non-trivial = at least two tables with different initial (format, sortedness, stored zeros) or a one-difference '
         'pair, and at least one comparison preceded by a representation-changing accessor; distinct by case hash')
 TRUSTED = ['hand-written model coq/Model/Equality.v tied to biom/table.py and to scipy (tocsr/tocsc/eliminate_zeros/'
